@@ -43,7 +43,7 @@ BUDGET_S = {"quick": 240, "thorough": 3000}
 
 def cases(seed, tier):
     rng = random.Random(f"C18:{seed}")
-    n = 320 if tier == "quick" else 20000
+    n = 800 if tier == "quick" else 20000
     out = []
     for i in range(n):
         r = rng.random()
